@@ -105,8 +105,8 @@ pub trait Property: Sync + Send {
     /// per-case wall-clock budget before the watchdog declares a hang (seconds)
     fn hang_budget_s(&self, tier: Tier) -> u64 {
         match tier {
-            Tier::Quick => 20,
-            Tier::Thorough => 120,
+            Tier::Quick => 60,
+            Tier::Thorough => 180,
         }
     }
     /// whether a confirmed hang is a violation of this property (only C14)
